@@ -502,7 +502,65 @@ PROPS["C20"] = dict(
                "repaired in /repo (fix: d7b526b).",
 )
 
-# properties not claimed yet (kept current as checks are added)
+PROPS["C16"] = dict(
+    lean_targets=["SJ.Props.C16", "SJ.Audit.C16"],
+    configs=dict(quick=["d", "fr"], thorough=["d", "fr", "po", "ap"]),
+    gen_keys=["fromvalue."],
+    rule="(schema, value) pairs for the universal DeserializeSeed of harness/src/schema.rs, each run through from_value (Value by value), "
+         "&Value and from_str(to_string(value)) followed by end(): a fixed corpus (every leaf target and every leaf under Option / newtype / "
+         "Vec / 1-tuple against ~110 small values incl. every integer bound and number-literal spellings; tuples too short / exact / too "
+         "long; every key kind (String, 10 integer widths, bool, char, unit enum) against 46 key spellings such as 12, -3, 01, 1.0, 1e0, "
+         "true, +1, -0, ' 1', type bounds and bounds+-1; structs with and without deny_unknown_fields from objects (unknown / missing / "
+         "optional / ill-typed fields, any order) and arrays (short / exact / long); an enum with unit, newtype, tuple and struct variants "
+         "in every spelling incl. two-key and empty objects and unknown variants; the statement's three exclusions), then random schemas "
+         "from gen_schema (depth 0-3, all 18 node kinds, all key kinds) with 1-3 values each from gen_value_for (matching, and deliberately "
+         "mismatching at every level: wrong kind, out-of-range and just-in-range integers, floats for integers, extra / missing elements, "
+         "unknown / missing / clashing fields, wrong variant payload shapes, ill-formed numeric keys) plus unrelated random values. "
+         "Non-trivial = the schema is not a bare leaf or the value is an array/object; distinct = distinct case lines.",
+    trusted_base=[KERNEL, TIE + "; for C16 the translator regenerates the routing table of src/value/de.rs (per method: delegation, "
+                  "macro, or Value::K => callee arms; forward_to_deserialize_any lists; leftover checks; numeric-key guard) and "
+                  "c16_routing_tied compares it with the table the transcription was written against (a fingerprint)",
+                  "the universal seed of harness/src/schema.rs: serde's own Deserialize impls for the leaves (bool, 12 integers, f32/f64, char, "
+                  "String, (), IgnoredAny, serde_bytes::ByteBuf, Value) and hand-written copies of the visitor shapes serde_derive generates for "
+                  "Option, newtype struct, Vec, fixed tuples, maps, structs (seq or map, __Field identifiers, deny_unknown_fields, "
+                  "missing_field) and externally tagged enums; their Lean transcription is the 'visitors' part of SJ/Model/FromValue.lean, "
+                  "shared by the owned and the borrowed side as the visitor objects are in Rust",
+                  "str::parse::<iN/uN/f64/f32>, `as` casts, ryu and f64::to_string are external: parse/casts modelled by documented semantics "
+                  "(exact / correctly rounded, SJ.Spec.Ieee); ryu and Display texts are passed by the harness per literal (Ext parameter, "
+                  "arbitrary_precision only)",
+                  "SJ.Spec.Ieee is the lead's placeholder round-to-nearest-even (to be replaced by the C08 branch's, same signatures)"],
+    assumptions=["Values are well-formed: Number::Float is finite, object keys are distinct and are not the private tokens "
+                 "$serde_json::private::Number / RawValue; struct field names and variant names of a schema are distinct",
+                 "serde visitors behave as transcribed (they are serde's, not serde_json's); raw_value builds are not in the configurations",
+                 "float results are compared only under float_roundtrip or when every number of the value is an integer in [i64::MIN, u64::MAX] "
+                 "or a short literal (<= 15 significant digits, |decimal exponent| <= 22), as the statement says"],
+    partial=["c16_agree_partial: the three-way statement is proved for its owned/borrowed leg only (c16_owned_borrowed, full strength over the "
+             "whole universe and every configuration). The text leg — deTyped = de.rs's typed entry points on to_string(v) — awaits the typed "
+             "text machine, which is not part of this branch; meanwhile the three-way agreement is carried by the correspondence run: the "
+             "executable specification compares the three REAL outcomes on every generated pair, and the driver's third model field echoes "
+             "the implementation (no text-side model yet, so that field cannot disagree)",
+             "the wire codecs of Schema / TVal have no round-trip lemma (decode (enc x) = x); they are exercised on every case line"],
+    technique="Lean 4 theorem by mutual structural induction over a nested typed universe: the two transcriptions of src/value/de.rs (owned "
+              "Deserializer for Value, borrowed Deserializer for &Value, each with its seq/map/enum/variant access types, sharing Number's "
+              "impl and MapKeyDeserializer as the crate does) are equal on every schema and value; structural corollaries; differential run "
+              "of both transcriptions and of the three-way executable statement against the crate through a universal DeserializeSeed",
+    level_text="Machine-checked Lean 4 theorems: c16_owned_borrowed — for every configuration, every schema of the typed universe (bool, 12 "
+               "integer widths, f64/f32, char, string, byte buffer, option, unit, unit struct, newtype, seq, fixed tuple, map with "
+               "string/integer/bool/char/unit-enum keys, struct with or without deny_unknown_fields given as object or array, externally "
+               "tagged enum with unit/newtype/tuple/struct variants, IgnoredAny, Value) and every Value, the transcription of from_value "
+               "and the transcription of Deserialize-from-&Value return the same outcome; plus c16_ignored_total, c16_any_identity, "
+               "c16_tuple_exact_length, c16_struct_array_exact_length, c16_int_in_range, c16_enum_single_key, c16_option, "
+               "c16_result_comparator_exact (the comparator of the executable statement is equality), c16_routing_tied (source routing "
+               "= transcribed routing, regenerated each run). Both "
+               "transcriptions are run against the real crate on every generated (schema, value) pair (0 disagreements in four feature "
+               "configurations) and the three-way statement (owned, borrowed, from_str of to_string) is evaluated on the crate's own "
+               "outcomes with exactly the statement's exclusions.",
+    level_note="Trusted: Lean kernel + propext/Classical.choice/Quot.sound; harness/driver comparison; the universal seed and serde's visitors "
+               "as transcribed; std parse/cast and ryu/Display as parameters. Partial: the text leg of the three-way theorem (typed text "
+               "machine not in this branch) is covered by correspondence only. Open findings (arbitrary_precision only): literal -0, "
+               "non-finite literals into f64, Display-form literals into Value.",
+)
+
 PROPS["C15"] = dict(
     lean_targets=["SJ.Props.C15", "SJ.Audit.C15"],
     configs=dict(quick=["d", "fr"], thorough=["d", "fr", "po", "ap"]),
@@ -568,6 +626,7 @@ PROPS["C15"] = dict(
                "Value is conditional on parser completeness (C01/C02); f64 equality under the stated float proviso.",
 )
 
+# properties not claimed yet (kept current as checks are added)
 NOT_APPLICABLE = [
     dict(property_id=f"C{i:02d}", reason="check under construction in this build phase; not yet claimed (see DESIGN.md §11 build order)")
     for i in range(1, 21) if f"C{i:02d}" not in PROPS
